@@ -22,7 +22,7 @@ package pfcp
 //@   ensures [errnil] err != nil ==> sess == nil
 //@   modifies nothing
 //@   reveal lnodeWF
-//@   serves C04 C07
+//@   serves C04 C07 C01
 //@   cases zero: lSeid == 0 | low: 0 < lSeid && lSeid < 1<<63 | edge: lSeid == 1<<63 | hi: lSeid > 1<<63
 
 //@ pred sessLinked(n *LocalNode) =
@@ -38,7 +38,7 @@ package pfcp
 //@                        !(n.sess[j].RemoteID == rSeid && addrStr(n.sess[j].rnode.addr) == addrStr(addr)))
 //@   modifies nothing
 //@   reveal lnodeWF
-//@   serves C04 C05 C07
+//@   serves C04 C05 C07 C01
 //@   loop range(n.sess):
 //@     invariant [scanned] forall j int :: 0 <= j && j < idx && n.sess[j] != nil ==>
 //@                        !(n.sess[j].RemoteID == rSeid && addrStr(n.sess[j].rnode.addr) == addrStr(addr))
@@ -61,7 +61,7 @@ package pfcp
 //@   owns s.BARIDs by s
 //@   owns s.q by s
 //@   reveal lnodeWF
-//@   serves C04 C05 C13
+//@   serves C04 C05 C13 C01
 //@   cases reuse: len(n.free) > 0 | grow: len(n.free) == 0
 
 // ---------------------------------------------------------------------------------------------
@@ -117,7 +117,7 @@ package pfcp
 //@   reveal sessOK
 //@   reveal nodeInv allSessOK dpLive lnodeWF
 //@   uses ok frameok for node hiding sessOK
-//@   serves C01 C05 C07 C11 C12
+//@   serves C01 C05 C07 C11 C12 C02 C04
 //@   at call CreateFAR:
 //@     assert [seid]     arg0 == s.LocalID && arg1 == req
 //@     assert [recorded] val(req.FARID()) in s.FARIDs
@@ -130,7 +130,7 @@ package pfcp
 //@   reveal sessOK
 //@   reveal nodeInv allSessOK dpLive lnodeWF
 //@   uses ok frameok for node hiding sessOK
-//@   serves C01 C05 C07 C11 C12
+//@   serves C01 C05 C07 C11 C12 C02 C04
 //@   at call UpdateFAR:
 //@     assert [seid] arg0 == s.LocalID && arg1 == req
 
@@ -140,7 +140,8 @@ package pfcp
 //@   ensures [ok]    sessOK(s)
 //@   ensures [frameok] forall t *Sess :: old(allocated(t)) && old(sessOK(t)) && t != s && t.LocalID != s.LocalID ==> sessOK(t)
 //@   ensures [node]  old(s.rnode.local != nil && nodeInv(s.rnode.local) && inSlot(s.rnode.local, s)) ==> nodeInv(s.rnode.local)
-//@   ensures [gone]  ok(req.FARID()) && val(req.FARID()) in old(s.FARIDs) ==> !(RuleKey(s.LocalID, 2, uint64(val(req.FARID()))) in DP)
+//@   ensures [gone]  err == nil && ok(req.FARID()) && val(req.FARID()) in old(s.FARIDs) ==> !(RuleKey(s.LocalID, 2, uint64(val(req.FARID()))) in DP)
+//@   ensures [kept]  err != nil ==> DP == old(DP)
 //@   ensures [sub]   forall k RuleKey :: k in DP ==> k in old(DP)
 //@   ensures [isol]  forall k RuleKey :: k.seid != s.LocalID ==> ((k in DP) == (k in old(DP))) && ((k in CREATED) == (k in old(CREATED)))
 //@   ensures [keys]  forall id uint32 :: id in s.FARIDs ==> id in old(s.FARIDs)
@@ -149,7 +150,7 @@ package pfcp
 //@   reveal sessOK
 //@   reveal nodeInv allSessOK dpLive lnodeWF
 //@   uses ok frameok for node hiding sessOK
-//@   serves C01 C05 C07 C11 C12
+//@   serves C01 C05 C07 C11 C12 C02 C04
 //@   at call RemoveFAR:
 //@     assert [seid] arg0 == s.LocalID && arg1 == req
 
@@ -168,7 +169,7 @@ package pfcp
 //@   reveal sessOK
 //@   reveal nodeInv allSessOK dpLive lnodeWF
 //@   uses ok frameok for node hiding sessOK
-//@   serves C01 C05 C07 C11 C12
+//@   serves C01 C05 C07 C11 C12 C03 C04
 //@   at call CreateQER:
 //@     assert [seid]     arg0 == s.LocalID && arg1 == req
 //@     assert [recorded] val(req.QERID()) in s.QERIDs
@@ -181,7 +182,7 @@ package pfcp
 //@   reveal sessOK
 //@   reveal nodeInv allSessOK dpLive lnodeWF
 //@   uses ok frameok for node hiding sessOK
-//@   serves C01 C05 C07 C11 C12
+//@   serves C01 C05 C07 C11 C12 C03 C04
 //@   at call UpdateQER:
 //@     assert [seid] arg0 == s.LocalID && arg1 == req
 
@@ -191,7 +192,8 @@ package pfcp
 //@   ensures [ok]    sessOK(s)
 //@   ensures [frameok] forall t *Sess :: old(allocated(t)) && old(sessOK(t)) && t != s && t.LocalID != s.LocalID ==> sessOK(t)
 //@   ensures [node]  old(s.rnode.local != nil && nodeInv(s.rnode.local) && inSlot(s.rnode.local, s)) ==> nodeInv(s.rnode.local)
-//@   ensures [gone]  ok(req.QERID()) && val(req.QERID()) in old(s.QERIDs) ==> !(RuleKey(s.LocalID, 3, uint64(val(req.QERID()))) in DP)
+//@   ensures [gone]  err == nil && ok(req.QERID()) && val(req.QERID()) in old(s.QERIDs) ==> !(RuleKey(s.LocalID, 3, uint64(val(req.QERID()))) in DP)
+//@   ensures [kept]  err != nil ==> DP == old(DP)
 //@   ensures [sub]   forall k RuleKey :: k in DP ==> k in old(DP)
 //@   ensures [isol]  forall k RuleKey :: k.seid != s.LocalID ==> ((k in DP) == (k in old(DP))) && ((k in CREATED) == (k in old(CREATED)))
 //@   ensures [keys]  forall id uint32 :: id in s.QERIDs ==> id in old(s.QERIDs)
@@ -200,7 +202,7 @@ package pfcp
 //@   reveal sessOK
 //@   reveal nodeInv allSessOK dpLive lnodeWF
 //@   uses ok frameok for node hiding sessOK
-//@   serves C01 C05 C07 C11 C12
+//@   serves C01 C05 C07 C11 C12 C03 C04
 //@   at call RemoveQER:
 //@     assert [seid] arg0 == s.LocalID && arg1 == req
 
@@ -219,7 +221,7 @@ package pfcp
 //@   reveal sessOK
 //@   reveal nodeInv allSessOK dpLive lnodeWF
 //@   uses ok frameok for node hiding sessOK
-//@   serves C01 C05 C07 C11 C12
+//@   serves C01 C05 C07 C11 C12 C03 C04
 //@   at call CreateBAR:
 //@     assert [seid]     arg0 == s.LocalID && arg1 == req
 //@     assert [recorded] val(req.BARID()) in s.BARIDs
@@ -232,7 +234,7 @@ package pfcp
 //@   reveal sessOK
 //@   reveal nodeInv allSessOK dpLive lnodeWF
 //@   uses ok frameok for node hiding sessOK
-//@   serves C01 C05 C07 C11 C12
+//@   serves C01 C05 C07 C11 C12 C03 C04
 //@   at call UpdateBAR:
 //@     assert [seid] arg0 == s.LocalID && arg1 == req
 
@@ -242,7 +244,8 @@ package pfcp
 //@   ensures [ok]    sessOK(s)
 //@   ensures [frameok] forall t *Sess :: old(allocated(t)) && old(sessOK(t)) && t != s && t.LocalID != s.LocalID ==> sessOK(t)
 //@   ensures [node]  old(s.rnode.local != nil && nodeInv(s.rnode.local) && inSlot(s.rnode.local, s)) ==> nodeInv(s.rnode.local)
-//@   ensures [gone]  ok(req.BARID()) && val(req.BARID()) in old(s.BARIDs) ==> !(RuleKey(s.LocalID, 5, uint64(val(req.BARID()))) in DP)
+//@   ensures [gone]  err == nil && ok(req.BARID()) && val(req.BARID()) in old(s.BARIDs) ==> !(RuleKey(s.LocalID, 5, uint64(val(req.BARID()))) in DP)
+//@   ensures [kept]  err != nil ==> DP == old(DP)
 //@   ensures [sub]   forall k RuleKey :: k in DP ==> k in old(DP)
 //@   ensures [isol]  forall k RuleKey :: k.seid != s.LocalID ==> ((k in DP) == (k in old(DP))) && ((k in CREATED) == (k in old(CREATED)))
 //@   ensures [keys]  forall id uint8 :: id in s.BARIDs ==> id in old(s.BARIDs)
@@ -251,7 +254,7 @@ package pfcp
 //@   reveal sessOK
 //@   reveal nodeInv allSessOK dpLive lnodeWF
 //@   uses ok frameok for node hiding sessOK
-//@   serves C01 C05 C07 C11 C12
+//@   serves C01 C05 C07 C11 C12 C03 C04
 //@   at call RemoveBAR:
 //@     assert [seid] arg0 == s.LocalID && arg1 == req
 
@@ -281,7 +284,7 @@ package pfcp
 //@   reveal sessOK
 //@   reveal nodeInv allSessOK dpLive lnodeWF
 //@   uses ok frameok for node hiding sessOK
-//@   serves C01 C05 C07 C10 C11 C12
+//@   serves C01 C05 C07 C10 C11 C12 C03 C04
 //@   loop range(req.ChildIEs):
 //@     modifies nothing
 //@     invariant [minfo] mInfo != nil
@@ -312,7 +315,7 @@ package pfcp
 //@   reveal sessOK
 //@   reveal nodeInv allSessOK dpLive lnodeWF
 //@   uses ok frameok for node hiding sessOK
-//@   serves C01 C05 C07 C11 C12 C10
+//@   serves C01 C05 C07 C11 C12 C10 C03 C04
 //@   loop range(req.ChildIEs):
 //@     modifies s.URRIDs[_].DURAT, s.URRIDs[_].VOLUM, s.URRIDs[_].EVENT, s.URRIDs[_].MBQE, s.URRIDs[_].INAM, s.URRIDs[_].RADI, s.URRIDs[_].ISTM, s.URRIDs[_].MNOP
 //@     invariant [others] forall u uint32 :: u in s.URRIDs && u != id ==> urrKeeps(s, u)
@@ -329,18 +332,20 @@ package pfcp
 //@   ensures [ok]    sessOK(s)
 //@   ensures [frameok]  forall t *Sess :: old(allocated(t)) && old(sessOK(t)) && t != s && t.LocalID != s.LocalID ==> sessOK(t)
 //@   ensures [node]  old(s.rnode.local != nil && nodeInv(s.rnode.local) && inSlot(s.rnode.local, s)) ==> nodeInv(s.rnode.local)
-//@   ensures [gone]  ok(req.URRID()) && val(req.URRID()) in s.URRIDs ==> !(RuleKey(s.LocalID, 4, uint64(val(req.URRID()))) in DP)
+//@   ensures [gone]  err == nil && ok(req.URRID()) && val(req.URRID()) in s.URRIDs ==> !(RuleKey(s.LocalID, 4, uint64(val(req.URRID()))) in DP)
+//@   ensures [kept]  err != nil ==> DP == old(DP)
 //@   ensures [sub]   forall k RuleKey :: k in DP ==> k in old(DP)
 //@   ensures [isol]  forall k RuleKey :: k.seid != s.LocalID ==> ((k in DP) == (k in old(DP))) && ((k in CREATED) == (k in old(CREATED)))
 //@   ensures [termr] err == nil ==> (forall j int :: 0 <= j && j < len(usars) ==> usars[j].USARTrigger.Flags & report.USAR_TRIG_TERMR != 0)
-//@   ensures [mark]  ok(req.URRID()) && val(req.URRID()) in s.URRIDs ==> s.URRIDs[val(req.URRID())].removed
+//@   ensures [mark]  err == nil ==> s.URRIDs[val(req.URRID())].removed
+//@   ensures [unmarked] err != nil ==> (forall u uint32 :: u in s.URRIDs ==> s.URRIDs[u].removed == old(s.URRIDs[u].removed))
 //@   ensures [errnil] err != nil ==> usars == nil
 //@   ensures [freshres] usars == nil || fresh(usars)
 //@   modifies s.URRIDs[_].removed, DP
 //@   reveal sessOK
 //@   reveal nodeInv allSessOK dpLive lnodeWF
 //@   uses ok frameok for node hiding sessOK
-//@   serves C01 C05 C07 C12 C11 C10
+//@   serves C01 C05 C07 C12 C11 C10 C03 C04
 //@   loop range(usars):
 //@     modifies usars[_]
 //@     invariant [flagged] forall j int :: 0 <= j && j < idx ==> usars[j].USARTrigger.Flags & report.USAR_TRIG_TERMR != 0
@@ -360,7 +365,7 @@ package pfcp
 //@   reveal sessOK
 //@   reveal nodeInv allSessOK dpLive lnodeWF
 //@   uses ok frameok for node hiding sessOK
-//@   serves C01 C05 C07 C12 C11 C10
+//@   serves C01 C05 C07 C12 C11 C10 C04
 //@   loop range(usars):
 //@     modifies usars[_]
 //@     invariant [flagged] forall j int :: 0 <= j && j < idx ==> usars[j].USARTrigger.Flags & report.USAR_TRIG_IMMER != 0
@@ -383,7 +388,7 @@ package pfcp
 //@   reveal sessOK
 //@   reveal nodeInv allSessOK dpLive lnodeWF
 //@   uses ok frameok for node hiding sessOK
-//@   serves C01 C05 C07 C12 C11 C10
+//@   serves C01 C05 C07 C12 C11 C10 C04
 //@   loop range(usars):
 //@     modifies usars[_]
 //@     invariant [flagged] forall j int :: 0 <= j && j < idx ==> usars[j].USARTrigger.Flags & report.USAR_TRIG_TERMR != 0
@@ -423,7 +428,7 @@ package pfcp
 //@   reveal sessOK
 //@   reveal nodeInv allSessOK dpLive lnodeWF
 //@   uses ok frameok for node hiding sessOK
-//@   serves C01 C05 C07 C11 C12
+//@   serves C01 C05 C07 C11 C12 C02 C04
 //@   loop range(ies):
 //@     modifies s.URRIDs[_].refPdrNum, urrids[_]
 //@     invariant [cnt] forall u uint32 :: u in s.URRIDs ==> s.URRIDs[u].refPdrNum == old(s.URRIDs[u].refPdrNum) + ite(u in urrids, uint16(1), uint16(0))
@@ -446,7 +451,7 @@ package pfcp
 //@   reveal sessOK
 //@   reveal nodeInv allSessOK dpLive lnodeWF
 //@   uses ok frameok for node hiding sessOK
-//@   serves C01 C05 C07 C12 C11 C10
+//@   serves C01 C05 C07 C12 C11 C10 C02 C04
 //@   loop range(ies):
 //@     modifies newUrrids[_]
 //@     invariant true
@@ -470,7 +475,8 @@ package pfcp
 //@   ensures [ok]    sessOK(s)
 //@   ensures [frameok]  forall t *Sess :: old(allocated(t)) && old(sessOK(t)) && t != s && t.LocalID != s.LocalID ==> sessOK(t)
 //@   ensures [node]  old(s.rnode.local != nil && nodeInv(s.rnode.local) && inSlot(s.rnode.local, s)) ==> nodeInv(s.rnode.local)
-//@   ensures [gone]  ok(req.PDRID()) && val(req.PDRID()) in old(s.PDRIDs) ==> !(RuleKey(s.LocalID, 1, uint64(val(req.PDRID()))) in DP)
+//@   ensures [gone]  err == nil && ok(req.PDRID()) && val(req.PDRID()) in old(s.PDRIDs) ==> !(RuleKey(s.LocalID, 1, uint64(val(req.PDRID()))) in DP)
+//@   ensures [kept]  err != nil ==> DP == old(DP)
 //@   ensures [sub]   forall k RuleKey :: k in DP ==> k in old(DP)
 //@   ensures [isol]  forall k RuleKey :: k.seid != s.LocalID ==> ((k in DP) == (k in old(DP))) && ((k in CREATED) == (k in old(CREATED)))
 //@   ensures [keys]  forall id uint16 :: id in s.PDRIDs ==> id in old(s.PDRIDs)
@@ -480,7 +486,7 @@ package pfcp
 //@   reveal sessOK
 //@   reveal nodeInv allSessOK dpLive lnodeWF
 //@   uses ok frameok for node hiding sessOK
-//@   serves C01 C05 C07 C12 C11 C10
+//@   serves C01 C05 C07 C12 C11 C10 C02 C04
 //@   loop range(pdrInfo.RelatedURRIDs):
 //@     modifies s.URRIDs[_].refPdrNum
 //@     invariant [termr] forall j int :: 0 <= j && j < len(usars) ==> usars[j].USARTrigger.Flags & report.USAR_TRIG_TERMR != 0
@@ -536,6 +542,16 @@ package pfcp
 //@   loop range(s.q):
 //@     modifies chans(s.q)
 //@     invariant [closed] forall p uint16 :: p in s.q ==> (closed(s.q[p]) == (p in visited)) && s.q[p] != nil
+//@   after call RemoveFAR:
+//@     assume [A-CLOSEREMOVE] ret0 == nil
+//@   after call RemoveQER:
+//@     assume [A-CLOSEREMOVE] ret0 == nil
+//@   after call RemoveURR:
+//@     assume [A-CLOSEREMOVE] ret1 == nil
+//@   after call RemoveBAR:
+//@     assume [A-CLOSEREMOVE] ret0 == nil
+//@   after call RemovePDR:
+//@     assume [A-CLOSEREMOVE] ret1 == nil
 
 // Queue model: a channel holds the packets at buffer positions chhead(c) .. chtail(c)-1, oldest first.
 //@ func (s *Sess) Push(pdrid uint16, p []byte)
@@ -766,7 +782,7 @@ package pfcp
 //@   requires rx != nil
 //@   ensures [timer] t != nil
 //@   modifies nothing
-//@   serves C06
+//@   serves C06 C07 C17
 //@   at call AfterFunc:
 //@     assert [window] arg0 == rx.timeout
 
@@ -778,7 +794,7 @@ package pfcp
 //@                    rx.msgBuf == nil && rx.timer != nil
 //@   ensures [window] rx.timeout == server.cfg.Pfcp.RetransTimeout * time.Duration(server.cfg.Pfcp.MaxRetrans + 1)
 //@   modifies nothing
-//@   serves C06
+//@   serves C06 C07 C17
 
 //@ func (rx *RxTransaction) send(rsp message.Message) (err error)
 //@   locals b:[]byte | err:error
@@ -786,7 +802,7 @@ package pfcp
 //@   ensures [cached] err == nil ==> len(rx.msgBuf) > 0
 //@   ensures [same]   rx.raddr == old(rx.raddr) && rx.id == old(rx.id) && rx.seq == old(rx.seq)
 //@   modifies rx.msgBuf
-//@   serves C06 C08
+//@   serves C06 C08 C07 C17
 //@   at call WriteTo:
 //@     assert [to]    arg1 == rx.raddr
 //@     assert [bytes] arg0 == rx.msgBuf && len(arg0) > 0
@@ -797,7 +813,7 @@ package pfcp
 //@   ensures [new]  !rxTrFound ==> need && err == nil
 //@   ensures [dup]  rxTrFound ==> !need
 //@   modifies nothing
-//@   serves C06
+//@   serves C06 C07 C17
 //@   at call WriteTo:
 //@     assert [resend] rxTrFound && len(rx.msgBuf) > 0 && arg0 == rx.msgBuf && arg1 == rx.raddr
 
@@ -806,14 +822,14 @@ package pfcp
 //@   ensures [own]  forall k string :: k in rx.server.rxTrans <==> (k in old(rx.server.rxTrans) && k != rx.id)
 //@   ensures [vals] forall k string :: k in rx.server.rxTrans ==> rx.server.rxTrans[k] == old(rx.server.rxTrans[k])
 //@   modifies rx.server.rxTrans[_]
-//@   serves C06
+//@   serves C06 C07 C17
 
 //@ func (tx *TxTransaction) startTimer() (t *time.Timer)
 //@   locals t:*time.Timer
 //@   requires tx != nil
 //@   ensures [timer] t != nil
 //@   modifies nothing
-//@   serves C09
+//@   serves C09 C07 C17
 //@   at call AfterFunc:
 //@     assert [period] arg0 == tx.retransTimeout
 
@@ -833,7 +849,7 @@ package pfcp
 //@   ensures [seq]    hdrOf(req).SequenceNumber == tx.seq
 //@   ensures [same]   tx.raddr == old(tx.raddr) && tx.id == old(tx.id) && tx.seq == old(tx.seq) && tx.retransCount == old(tx.retransCount) && tx.maxRetrans == old(tx.maxRetrans)
 //@   modifies tx.req, tx.msgBuf, tx.timer, req.(*message.SessionReportRequest).Header.SequenceNumber
-//@   serves C09
+//@   serves C09 C07 C17
 //@   at call WriteTo:
 //@     assert [to]    arg1 == tx.raddr
 //@     assert [bytes] arg0 == tx.msgBuf && len(arg0) > 0
@@ -859,7 +875,7 @@ package pfcp
 //@   ensures [vals]   forall k string :: k in tx.server.txTrans ==> tx.server.txTrans[k] == old(tx.server.txTrans[k])
 //@   ensures [same]   tx.maxRetrans == old(tx.maxRetrans) && tx.id == old(tx.id) && tx.server == old(tx.server)
 //@   modifies tx.retransCount, tx.timer, tx.server.txTrans[_]
-//@   serves C09
+//@   serves C09 C07 C17
 //@   at call WriteTo:
 //@     assert [resend] old(tx.retransCount) < tx.maxRetrans && arg0 == tx.msgBuf && arg1 == tx.raddr
 //@   at call txtoDispacher:
@@ -880,6 +896,7 @@ package pfcp
 //@   ensures [wire]    hdrOf(msg).SequenceNumber == old(s.txSeq)
 //@   ensures [others]  forall k string :: k != trKey(addr, old(s.txSeq)) ==> ((k in s.txTrans) == (k in old(s.txTrans))) && (k in s.txTrans ==> s.txTrans[k] == old(s.txTrans[k]))
 //@   ensures [txseq24] s.txSeq < 1<<24
+//@   ensures [next]    s.txSeq == (old(s.txSeq) + 1) & 0xffffff
 //@   ensures [wf]      srvWF(s)
 //@   modifies s.txSeq, s.txTrans[_], msg.(*message.SessionReportRequest).Header.SequenceNumber
 //@   reveal srvWF
@@ -1086,6 +1103,7 @@ package pfcp
 //@ pure func estRejected(s *PfcpServer, req *message.SessionEstablishmentRequest) bool =
 //@      req.NodeID == nil || !ok(req.NodeID.NodeID()) || !(val(req.NodeID.NodeID()) in s.rnodes) || req.CPFSEID == nil || !ok(req.CPFSEID.FSEID())
 
+// [urrsfirst] (C12): the URRs of the request exist before its PDRs are created, so that Create PDR counts its references.
 // The new session is reachable under its own UP-SEID from the moment NewSess returns; the rule loops change only
 // that session (their [isol] invariants) and carry the whole-node invariant as one opaque fact.
 //@ func (s *PfcpServer) handleSessionEstablishmentRequest(req *message.SessionEstablishmentRequest, addr net.Addr)
@@ -1111,10 +1129,12 @@ package pfcp
 //@   loop range(req.CreateURR):
 //@     modifies sess.URRIDs[_], DP, CREATED
 //@     invariant [ok]   nodeInv(s.lnode) && sessOK(sess)
+//@     invariant [made] forall j int :: 0 <= j && j < idx && ok(req.CreateURR[j].URRID()) ==> val(req.CreateURR[j].URRID()) in sess.URRIDs
 //@     invariant [isol] forall k RuleKey :: k.seid != sess.LocalID ==> ((k in DP) == (k in old(DP))) && ((k in CREATED) == (k in old(CREATED)))
 //@   loop range(req.CreatePDR):
 //@     modifies sess.PDRIDs[_], sess.URRIDs[_].refPdrNum, DP, CREATED
 //@     invariant [ok]   nodeInv(s.lnode) && sessOK(sess)
+//@     invariant [urrsfirst] forall j int :: 0 <= j && j < len(req.CreateURR) && ok(req.CreateURR[j].URRID()) ==> val(req.CreateURR[j].URRID()) in sess.URRIDs
 //@     invariant [isol] forall k RuleKey :: k.seid != sess.LocalID ==> ((k in DP) == (k in old(DP))) && ((k in CREATED) == (k in old(CREATED)))
 //@   at call NewSess:
 //@     unfold nodeInv(s.lnode)
@@ -1369,6 +1389,7 @@ package pfcp
 //@   at call ResolveUDPAddr:
 //@     assert [owner] arg1 == sprintf("%s:%d", sess.rnode.ID, 8805)
 //@   at call Push:
+//@     reached [held] when typeis(rpt, report.DLDReport) && r.Action & report.APPLY_ACT_BUFF != 0 && len(r.BufPkt) > 0
 //@     assert [mine]  recv == sess && sess == s.lnode.sess[sr.SEID-1] && live(s.lnode, sr.SEID)
 //@   at call serveDLDReport:
 //@     assert [seid]  arg1 == sr.SEID && arg0 == iface(laddr)
@@ -1465,14 +1486,20 @@ package pfcp
 // as one ([marker]), otherwise a single empty datagram stops the control plane (C07).
 // What runs outside the event loop (supporting evidence for the ownership argument, not a decision of C17): these
 // functions are proved to write nothing but the channel they hand their item to.
+// A notification is queued for the event loop before the producer goes on: exactly one item is appended, it is the one
+// handed over, and the items already queued keep their place (C10 delivery, C13 arrival order, C17 exactly once on the
+// producer side).
 //@ func (s *PfcpServer) NotifySessReport(sr report.SessReport)
 //@   requires s != nil && s.srCh != nil && !closed(s.srCh)
+//@   ensures [queued] chtail(s.srCh) == old(chtail(s.srCh)) + 1 && chat(s.srCh, old(chtail(s.srCh))).SEID == sr.SEID && chat(s.srCh, old(chtail(s.srCh))).Reports == sr.Reports
+//@   ensures [kept]   chhead(s.srCh) == old(chhead(s.srCh)) && (forall i int :: old(chhead(s.srCh)) <= i && i < old(chtail(s.srCh)) ==> chat(s.srCh, i) == old(chat(s.srCh, i)))
 //@   modifies chanstate(s.srCh)
-//@   serves C10 C07
+//@   serves C10 C13 C17 C07
 //@ func (s *PfcpServer) NotifyTransTimeout(trType TransType, trID string)
 //@   requires s != nil && s.trToCh != nil && !closed(s.trToCh)
+//@   ensures [queued] chtail(s.trToCh) == old(chtail(s.trToCh)) + 1 && chat(s.trToCh, old(chtail(s.trToCh))).TrType == trType && chat(s.trToCh, old(chtail(s.trToCh))).TrID == trID
 //@   modifies chanstate(s.trToCh)
-//@   serves C06 C09 C07
+//@   serves C06 C09 C17 C07
 // [closing] (C17, one link of 'Stop stops'): the receiver returns only after a failed read (Stop closes the socket), and the
 // last thing it queues before returning is the close marker - an empty ReceivePacket - on which the event loop ends.
 //@ func (s *PfcpServer) receiver(wg *sync.WaitGroup)
@@ -1545,3 +1572,13 @@ package pfcp
 //@ writers pfcp.TxTransaction.id serves C17 = pfcp.NewTxTransaction
 //@ writers pfcp.RxTransaction.server serves C17 = pfcp.NewRxTransaction
 //@ writers pfcp.RxTransaction.id serves C17 = pfcp.NewRxTransaction
+
+// Timers (C06, C09, C07): a transaction's timer is armed where the transaction is created (rx) or sent (tx) and nowhere
+// else, and no timer is ever re-armed - the retention window counts from the first copy of a request.
+//@ callers time.Timer.Reset serves C06 C09 =
+//@ callers time.AfterFunc serves C06 C09 C07 = pfcp.RxTransaction.startTimer pfcp.TxTransaction.startTimer
+//@ callers pfcp.RxTransaction.startTimer serves C06 C07 C17 = pfcp.NewRxTransaction
+//@ callers pfcp.TxTransaction.startTimer serves C09 C07 C17 = pfcp.TxTransaction.send pfcp.TxTransaction.handleTimeout
+
+// UR-SEQN (C11): a number is taken from a URR's counter only where a usage report is stamped for the wire.
+//@ callers pfcp.Sess.URRSeq serves C11 = pfcp.PfcpServer.serveUSAReport pfcp.PfcpServer.handleSessionModificationRequest pfcp.PfcpServer.handleSessionDeletionRequest
